@@ -64,6 +64,35 @@ CHECKS = {
         "level_note": "step bound 12 steps/byte + 400 calibrated on the corpus (observed max 3/byte); scanner-goroutine crashes are attributed through the 'current case' file and confirmed by replay",
         "assumptions": ["time proportional to the input is read as a linear bound on scanner+parser steps (hook, build tag verif)"],
     },
+    "C06": {
+        "test": "TestC06", "level": "exploration", "crashy": True,
+        "quick": {"shards": 8, "checks": 4000, "timeout": 900},
+        "thorough": {"shards": 16, "checks": 60000, "timeout": 3400},
+        "rule": "well-typed generated bundles whose expressions are wrapped in operators/functions/directives with no regard for types or "
+                "arities (any value kind at any operand, unknown functions and directives, non-positive range steps, loop functions on "
+                "non-loop values, missing $ij, duplicate template names, obligatory directives naming unknown or nil directives), data maps of "
+                "arbitrary JSON shape; standalone expressions through EvalExpr; generated globals files; non-trivial = the call returned an "
+                "error or the program carries at least one ill-typed mutation",
+        "technique": "property-based robustness testing (rapid) with a watchdog: every call returns output or an error, no panic escapes, non-return confirmed in a fresh process",
+        "level_text": PBT + "each case must return normally; panics are caught at the call site, non-returns by a watchdog and re-confirmed by replay",
+        "level_note": "recursion guards and recursion counters are left intact (the property restricts recursion to data-bounded depth); range limits stay below 2000 so finite data stays finite in memory",
+        "assumptions": ["bundles the compiler rejects are outside the domain and only counted"],
+    },
+    "C07": {
+        "test": "TestC07", "level": "exploration", "crashy": True,
+        "quick": {"shards": 8, "checks": 200, "timeout": 900},
+        "thorough": {"shards": 16, "checks": 3000, "timeout": 3400},
+        "rule": "valid bundles from the program generator (shadowing, data=all forwarding, content params, header or soydoc params, $ij) and, for "
+                "each, every single-rule violation at every applicable site (use before definition, self-reference in a let's own definition, "
+                "use after the defining block ended, loop variable after the loop / in ifempty / in its own list expression, undeclared name, "
+                "unused let, unused param, let named ij, undeclared call param, dropped call param, unknown callee, soydoc+header params) plus "
+                "valid shadow-after-use probes; the expected verdict of every mutant is recomputed by the reference checker; every case is "
+                "non-trivial (it carries mutants); evaluations counts base bundles, counters report the mutants",
+        "technique": "property-based testing (rapid) with exhaustive per-bundle mutation at every site; oracle = reference static checker (accept <=> valid) plus the unbound-lookup hook on accepted bundles",
+        "level_text": PBT + "each bundle and each of its mutants is compiled and the verdict compared with an independent binding-based checker; accepted bundles are rendered with the unbound-lookup observer",
+        "level_note": "trusts harness/ref/check.go; the run-time consequence is checked for let and loop variables only (a declared param may be absent through data=\"$map\")",
+        "assumptions": ["data=\"all\" calls whose callee requires a param the caller cannot forward are not generated (the statement does not decide them)"],
+    },
     "C12": {
         "test": "TestC12", "level": "fault_enumeration",
         "quick": {"shards": 8, "checks": 250, "timeout": 900},
